@@ -1210,27 +1210,8 @@ class Compiler:
                 "except: NAME = None",
                 KEY=ast.Constant(name), NAME=store(name))
 
-        exc = template(
-            "exc_info()[1]", exc_info=Symbol(sys.exc_info), mode="eval"
-        )
-
-        exc_handler = template(
-            "if pos is not None: rcontext.setdefault('__error__', [])."
-            "append(token + (__filename, exc, ))",
-            exc=exc,
-            token=template("__tokens[pos]", pos="__token", mode="eval"),
-            pos="__token"
-        ) + template("raise")
-
         # Wrap visited nodes in try-except error handler.
-        body += [
-            ast.Try(
-                body=nodes,
-                handlers=[ast.ExceptHandler(body=exc_handler)],
-                finalbody=[],
-                orelse=[],
-            )
-        ]
+        body += self._record_errors(nodes)
 
         function_name = "render" if node.name is None else \
                         "render_%s" % mangle(node.name)
@@ -1255,6 +1236,31 @@ class Compiler:
         )
 
         yield function
+
+    def _record_errors(self, nodes):
+        """Wrap statements in the handler which records the position of
+        the expression being evaluated when an exception passes."""
+
+        exc = template(
+            "exc_info()[1]", exc_info=Symbol(sys.exc_info), mode="eval"
+        )
+
+        exc_handler = template(
+            "if pos is not None: rcontext.setdefault('__error__', [])."
+            "append(token + (__filename, exc, ))",
+            exc=exc,
+            token=template("__tokens[pos]", pos="__token", mode="eval"),
+            pos="__token"
+        ) + template("raise")
+
+        return [
+            ast.Try(
+                body=nodes,
+                handlers=[ast.ExceptHandler(body=exc_handler)],
+                finalbody=[],
+                orelse=[],
+            )
+        ]
 
     def visit_Text(self, node):
         yield EmitText(node.value)
@@ -1693,7 +1699,8 @@ class Compiler:
 
         self._slots.add(name)
 
-        orelse = template(
+        # The filler reports its own position (see above)
+        orelse = template("__token = None") + template(
             "SLOT(__stream, econtext.copy(), rcontext)",
             SLOT=name)
         test = ast.Compare(
@@ -1757,7 +1764,12 @@ class Compiler:
 
             self._current_slot.append(slot.name)
 
-            body = self.visit_Context(slot)
+            # A slot filler is a function of its own: it keeps its own
+            # expression token and records failures against this
+            # template (it is called from the macro's render function).
+            body = template("__token = None") + self._record_errors(
+                self.visit_Context(slot) or [ast.Pass()]
+            )
 
             assert self._current_slot.pop() == slot.name
 
